@@ -689,6 +689,9 @@ class Prover:
             inl = inline_pure(self.P, t)
             if inl is not None and depth < 6:
                 return self.lin(inl, depth + 3)
+            if isinstance(t[1], str) and is_pure_fn(self.P, t[1]):
+                # two calls of a pure observer with the same arguments denote the same value wherever they are made
+                return ({("call", t[1], t[2], 0): 1}, 0)
         return ({t: 1}, 0)
 
     def len_summary(self, x):
@@ -1243,6 +1246,11 @@ class Discharger:
             if r1 and r2:
                 return ("D-len", "equal lengths")
             return None
+        if what.startswith("time-arith:Sub") and len(ops) == 2:
+            # a - b on clock readings / durations cannot fail when a dominating comparison established b <= a
+            g = _sub(pr.lin(ops[1]), pr.lin(ops[0]))
+            r = pr.prove(g, s.bb)
+            return ("D-" + r, "later minus earlier: b <= a holds on every path to here") if r else None
         if what == "drain" and len(ops) == 2:
             se = _range_bounds(ops[1])
             if se and se[2] == "full":
@@ -1425,6 +1433,38 @@ def check_field_ranges(P, D):
                 r2 = pr.prove(_add(_neg(l), ({}, lo)), bb)
                 (proven if r1 and r2 else bad).append((b, s["sp"], "%s of %s.%s in [%d, %d]" % (what, adt.split("::")[-1], fld, lo, hi), "%s+%s" % (r1, r2) if r1 and r2 else None))
     return proven, bad
+
+
+_pure = {}
+_PURE_STD = re.compile(r"( as std::ops::(Add|Sub|Mul|Div|Rem|Shl|Shr|BitAnd|BitOr|BitXor|Not|Neg)[<>])|(^core::num::)|( as std::cmp::Partial(Ord|Eq))|"
+                       r"(^std::time::Duration::(as_|from_|new|subsec))|(::len$)|( as std::clone::Clone>::clone$)|(^std::cmp::(min|max)$)|"
+                       r"( as std::convert::(From|Into)<)")
+
+
+def is_pure_fn(P, fid, depth=0):
+    """a workspace function that only reads its arguments: no `&mut` parameter, no store through a parameter, and every call it
+    makes is to a pure std operator/observer or to another such function"""
+    if fid in _pure:
+        return _pure[fid]
+    b = P.bodies.get(fid)
+    sig = P.sigs.get(fid) or {}
+    if b is None or depth > 4 or b.kind not in ("fn", "assoc_fn") or any("&mut" in i or "&'" in i and " mut " in i for i in sig.get("inputs") or []):
+        _pure[fid] = False
+        return False
+    _pure[fid] = False   # cycles are not pure
+    ok = True
+    for bb, idx, st in b.stmts():
+        if "*" in st["p"][1:]:
+            ok = False
+    for bb, tm in b.calls():
+        n = callee_name(tm) or ""
+        if not (_PURE_STD.search(n) or is_pure_fn(P, n, depth + 1)):
+            ok = False
+    for bb, tm in b.terms():
+        if tm["k"] in ("yield",):
+            ok = False
+    _pure[fid] = ok
+    return ok
 
 
 _inl = {}
